@@ -15,7 +15,7 @@ from symx import sparse as sp
 from symx.prove import Prover
 from symx.runner import Acc
 from symx.selftest import sparse_selftest
-from harness.common import bound, z, fval, isclose
+from harness.common import real_code, RealCodeRaised, bound, z, fval, isclose
 
 PROPERTY = "C12"
 FUNCTIONS = ["molgri.molecules.transitions.window", "molgri.molecules.transitions.noncorr_window",
@@ -226,7 +226,7 @@ def numeric_violations(shape, traj):
     import contextlib, io
     import molgri.molecules.transitions as T
     L, n, tau, noncorr = shape["L"], shape["n"], shape["tau"], shape["noncorr"]
-    with contextlib.redirect_stdout(io.StringIO()):
+    with contextlib.redirect_stdout(io.StringIO()), real_code():
         M = T.MSM(np.array(traj, dtype=float), n).get_one_tau_transition_matrix(tau, noncorr)
         Mr = T.MSM(np.array(traj[::-1], dtype=float), n).get_one_tau_transition_matrix(tau, noncorr)
         obj = T.MSM(np.array(traj, dtype=float), n)
@@ -265,10 +265,10 @@ def replay(cex):
     traj = _traj(shape, cex.get("model", {}))
     try:
         bad = numeric_violations(shape, traj)
-    except Exception as e:  # noqa: BLE001
-        if cex.get("kind") == "exception":
-            return {"reproduced": type(e).__name__ == cex.get("exc"), "detail": repr(e), "trajectory": str(traj)}
-        return {"reproduced": True, "detail": f"real code raised {e!r}", "trajectory": str(traj)}
+    except RealCodeRaised as e:
+        return {"reproduced": True, "detail": f"real code raised {e}", "trajectory": str(traj)}
+    except Exception as e:  # noqa: BLE001 - the harness's own oracle failed on this model (overflow ...): not a verdict about the code
+        return {"reproduced": False, "detail": f"oracle could not be evaluated on this model: {e!r}", "trajectory": str(traj)}
     return {"reproduced": bool(bad), "detail": f"trajectory {traj}: failing on the real function: {bad[:8]}"}
 
 
